@@ -15,6 +15,7 @@ type VioRec struct {
 	Detail   string `json:"detail"`
 	Step     int    `json:"step"`
 	Case     *Case  `json:"case,omitempty"`
+	More     []*Case `json:"more,omitempty"` // a few further failing cases (fallback when the first does not reproduce on its own)
 }
 
 // Agg is what a batch (or a shard of it) measured. It is JSON-serialisable
@@ -77,7 +78,12 @@ func (a *Agg) Add(idx int64, r *Result, wantSample bool) {
 			rec = &VioRec{Property: v.Property, Sig: v.Sig, FirstRun: idx, Detail: v.Detail, Step: v.Step, Case: r.Case}
 			a.Viol[key] = rec
 		} else if idx < rec.FirstRun {
+			if len(rec.More) < 4 {
+				rec.More = append(rec.More, rec.Case)
+			}
 			rec.FirstRun, rec.Detail, rec.Step, rec.Case = idx, v.Detail, v.Step, r.Case
+		} else if len(rec.More) < 4 {
+			rec.More = append(rec.More, r.Case)
 		}
 		rec.Count++
 	}
@@ -160,7 +166,17 @@ func (a *Agg) Merge(b *Agg) {
 		}
 		rec.Count += v.Count
 		if v.FirstRun < rec.FirstRun {
+			if len(rec.More) < 4 {
+				rec.More = append(rec.More, rec.Case)
+			}
 			rec.FirstRun, rec.Detail, rec.Step, rec.Case = v.FirstRun, v.Detail, v.Step, v.Case
+		} else if len(rec.More) < 4 {
+			rec.More = append(rec.More, v.Case)
+		}
+		for _, c := range v.More {
+			if len(rec.More) < 4 {
+				rec.More = append(rec.More, c)
+			}
 		}
 	}
 	for _, s := range b.Samples {
